@@ -41,5 +41,7 @@ let eval (fn : string) (args : string list) : string =
   | "ParseTreeX", [x; src] -> tree_res (parseTreeX (parse_xcfg x) (bytes_of_hex src))
   | "ConvertX", [x; cfg; src] -> bytes_res (convertModelXC (parse_xcfg x) (parse_rcfg cfg) (bytes_of_hex src))
   | "ParseTreeGfm", [src] -> tree_res (parseTreeGfm (bytes_of_hex src))
+  | "GfmTablesOk", [x; src] ->
+    (match gfmTablesOk (parse_xcfg x) (bytes_of_hex src) with Ok b -> s_of_bool b | Panic -> "PANIC" | OutOfFuel -> "FUEL")
   | "ConvertGfm", [cfg; src] -> bytes_res (convertModelGfmC (parse_rcfg cfg) (bytes_of_hex src))
   | _ -> failwith ("unknown case kind " ^ fn)
